@@ -103,6 +103,14 @@ def check_case(sink, seed, idx):  # noqa: C901
                 k5, v5 = outcome(lambda: optree.tree_transpose(ospec, ispec, short_tree, is_leaf=o.is_leaf))
                 sink.check(k5 in ('TypeError', 'ValueError'), 'reject/leaf-count', 'a wrong leaf count raises', ident, lambda: (k5, repr(v5)[:200]))
                 sink.count('rejections:leaf-count')
+            # every wrong total: one inner tree (at any outer position) replaced by a tuple of n+k leaves, k in [-n, n+1] \ {0}
+            for k in [k for k in range(-n, n + 2) if k != 0][:: max(1, n // 3)]:
+                at = rng.randrange(m)
+                wrong = ospec.unflatten([tuple(U.Leaf(('w', i, j)) for j in range(n + k)) if i == at else ispec.unflatten(grid[i]) for i in range(m)])
+                k5, v5 = outcome(lambda: optree.tree_transpose(ospec, ispec, wrong, is_leaf=o.is_leaf))
+                sink.check(k5 in ('TypeError', 'ValueError'), 'reject/leaf-count/' + ('surplus' if k > 0 else 'deficit'), 'a wrong leaf count raises', dict(ident, surplus=k, at=at, m=m, n=n),
+                           lambda: (k5, repr(v5)[:200]))
+                sink.count('rejections:leaf-count:' + ('surplus<n' if 0 < k < n else 'surplus>=n' if k >= n else 'deficit'))
         # ---- tree_transpose_map family
         cache = {}
 
@@ -204,6 +212,8 @@ def finalize(sink, tier, seed):
     sink.require('oracle:value at (inner leaf j, outer leaf i) is the input value at (outer leaf i, inner leaf j)', 100)
     sink.require('rejections:empty')
     sink.require('rejections:leaf-count')
+    for c in ('surplus<n', 'surplus>=n', 'deficit'):
+        sink.require('rejections:leaf-count:' + c, 50)
     sink.require('rejections:namespace')
     sink.require('deviating-results')
     sink.require('first-result-defines', 100)
